@@ -175,6 +175,12 @@ def check_C12(tier, seed):
         for k in sorted(by):
             if by[k]: order.append(by[k].pop(0))
     keep = order[: (600 if tier == "quick" else 6000)]
+    # one variable, two sites whose implied types differ in nullability (gen/systematic.sharedvar_instances); always all of them
+    import systematic
+    fam = systematic.sharedvar_instances(tier, seed)
+    for k, i in enumerate(fam): i["id"] = 900001 + k
+    keep = fam + keep
+    res.notes["sharedvar_family_instances"] = len(fam)
     vals = arg_values()
     for inst in keep:
         base = [[k, v] for k, v in sorted(inst["args"].items())]
